@@ -46,6 +46,10 @@ EXTRA_ATOMS = {
     "r[i]=r[i]+u": [A("<p>r[i]", "<p>r[i] + u", [("i", "0", "3")])],
     "fresh": [["FRESH", "temp", "FV1"], A("FV1", "<p>a + 100"), A("<p>b", "FV1")],
     "fresh2": [["FRESH", "temp", "FV2"], A("FV2", "<p>b + 200"), A("<p>a", "FV2")],
+    # names requested up front, before any of them occurs in a statement; the second prefix is what the first request
+    # returns when `temp` is taken
+    "fresh-upfront": [["FRESH", "temp", "FV3"], ["FRESH", "temp_0", "FV4"], ["FRESH", "temp", "FV5"],
+                      A("FV3", "<p>a + 100"), A("FV4", "<p>b + 200"), A("FV5", "3"), A("<p>b", "FV3 + FV4 + FV5")],
     "temp=7": [A("temp", "7"), A("<p>b", "temp")],
     "temp_0=8": [A("temp_0", "8"), A("<p>a", "temp_0")],
     "r[temp]": [A("<p>r[temp]", "temp + 20", [("temp", "0", "<p>n")])],
@@ -60,7 +64,7 @@ CONDS = c01.CONDS
 MID_ATOMS = ["a+=1", "b=2a", "u=a+y", "b=u", "u=b", "a=u*2", "a=ifexp", "r[i]=..n", "r[i]=n..", "n=0", "n=2",
              "a=r[1]", "r[n-1]=a", "r[1]=b", "b=r[n-1]+r[0]", "r[i]=r[i]+u", "u=f(a)", "b=k(a,y=b)",
              "yield a", "yield u", "yield r[n-1]", "yield@t+n", "fail", "switch aux", "raise1", "t+=dt",
-             "fresh", "temp=7", "w=a;w+=1"]
+             "fresh", "fresh-upfront", "temp=7", "w=a;w+=1"]
 MID_CONDS = ["s:a>1", "s3:a<b", "e3:y==0"]
 
 STATE_CAP = 20000
